@@ -60,6 +60,13 @@ def r1(cx, chk, cfg, F):
             npaths += 1
             # departures of *entries* only (the cap-0 hand-back is a departure of the incoming pair: counted by its own cb below)
             deps = [d for d in w.departures if w.nodes.get(d[1]) is None or w.nodes[d[1]].kind != "sentinel"]
+            # a cache BUILT on this path with `on_evict: None` (from_iter / From conversions call `new`) has no callback to notify:
+            # its departures do not count (the branch on on_evict is decided from the constructed value, so cb_absent is not set)
+            home = {}
+            for ev_ in w.events_on:
+                if ev_[1] in ("unindex", "detach") and ev_[2] is not None:
+                    home.setdefault(ev_[3], ev_[2])
+            deps = [d for d in deps if not built_without_callback(p, home.get(d[1]))]
             cbs = w.cb_sites
             ncb += len(cbs)
             if w.cb_absent:
@@ -137,6 +144,14 @@ def r1(cx, chk, cfg, F):
             chk.ob("C15.R1", "%s:%s" % (cfg, f["q"]), "cb count == departures on %d paths (%d callback sites visited)" % (npaths, ncb),
                    {"root": f["q"], "paths": npaths, "callback_site_visits": ncb})
     chk.floor("C15.R1", "RawLRU roots in %s" % cfg, nroots, 50)
+
+
+def built_without_callback(p, X):
+    if X is None or X[0] not in ("L", "T") or p.st is None:
+        return False
+    loc = (X[0], X[1], X[2], tuple(X[3]) + ("on_evict",)) if X[0] == "L" else (X[0], X[1], tuple(X[2]) + ("on_evict",))
+    v = absint.Interp(None).read(p.st, loc)
+    return isinstance(v, tuple) and v[0] == "agg" and v[1] == "adt" and v[2][1] == "None"
 
 
 def handback_cbs(p, w, cbs):
